@@ -15,50 +15,90 @@ Proof. exact eforced_is_error. Qed.
 Print Assumptions C16_forced_expression_is_error.
 
 (* 1b. text templates ({{ }}, {% if %}, {% for %}): un-taken branches and zero-iteration bodies
-   are not part of lforced *)
-Theorem C16_undefined_is_error : forall t c x,
-  lforced c t x -> lookup c x = None -> reserved_var x = false -> hard_err (render Strict t c).
+   are not part of lforced.  [rf] = "repr() of an Undefined object fails": with it, printing a
+   list / tuple / dict literal that holds the Undefined object (at any depth) is a forcing position
+   of lforced too (rule N_out_holds); the statement holds for both values *)
+Theorem C16_undefined_is_error : forall rf t c x,
+  lforced rf c t x -> lookup c x = None -> reserved_var x = false -> hard_err (render rf Strict t c).
 Proof. exact undefined_is_error. Qed.
 Print Assumptions C16_undefined_is_error.
 
-Theorem C16_undefined_var_exact : forall pre post c x,
+Theorem C16_undefined_var_exact : forall rf pre post c x,
   lookup c x = None -> reserved_var x = false -> text_ok pre = true ->
-  render Strict (NText pre :: NOut (EVar x) :: post) c = Err EUndefined.
+  render rf Strict (NText pre :: NOut (EVar x) :: post) c = Err EUndefined.
 Proof. exact undefined_var_exact. Qed.
 Print Assumptions C16_undefined_var_exact.
 
-(* 1c. native templates {@ @}: a forced mention fails in the engine; an unforced one comes
-   back as an Undefined object and EVERY field conversion of RowParser then fails *)
-Theorem C16_native_undefined_is_error : forall e c x,
+(* 1c. native templates {@ @}: a forced mention fails in the engine; an unforced one is refused
+   by parse_as_string when it looks through the result (nc), and otherwise comes back as an
+   Undefined object and EVERY field conversion of RowParser then fails *)
+Theorem C16_native_undefined_is_error : forall nc e c x,
   lookup c x = None -> reserved_var x = false ->
-  (eforced c e x -> hard_err (eval_native Strict e c))
+  (eforced c e x -> hard_err (eval_native nc Strict e c))
   /\ (yields c e x ->
-        eval_native Strict e c = Ok VUndef
-        /\ to_text Strict (PObj VUndef) = Err EUndefined
-        /\ to_include Strict (PObj VUndef) = Err EUndefined
-        /\ to_entries Strict (PObj VUndef) = Err EUndefined).
+        if nc then eval_native nc Strict e c = Err EUndefined
+        else eval_native nc Strict e c = Ok VUndef
+             /\ to_text Strict (PObj VUndef) = Err EUndefined
+             /\ to_include Strict (PObj VUndef) = Err EUndefined
+             /\ to_entries Strict (PObj VUndef) = Err EUndefined).
 Proof. exact native_undefined_is_error. Qed.
 Print Assumptions C16_native_undefined_is_error.
 
 (* 1d. a missing field of a defined object *)
-Theorem C16_missing_field_is_error : forall c a f d,
+Theorem C16_missing_field_is_error : forall rf c a f d,
   eval Strict c a = Ok (VDict d) -> lookup d f = None -> reserved_attr f = false ->
-  render Strict [NOut (EAttr a f)] c = Err EUndefined.
+  render rf Strict [NOut (EAttr a f)] c = Err EUndefined.
 Proof. exact missing_field_is_error. Qed.
 Print Assumptions C16_missing_field_is_error.
 
+(* 1e. list / tuple / dict literals, nested to any depth: the value of an expression that carries
+   the reference evaluates to a container that HOLDS the Undefined object ... *)
+Theorem C16_carried_undefined_is_held : forall c e x,
+  carries c e x -> lookup c x = None -> reserved_var x = false ->
+  exists v, eval Strict c e = Ok v /\ has_undef v = true.
+Proof. exact carries_holds. Qed.
+Print Assumptions C16_carried_undefined_is_held.
+
+(* ... printing: what a tree whose repr() does not fail shows (s), a tree whose repr() fails shows
+   too, unless an Undefined object is inside at some depth - then it is an UndefinedError ... *)
+Theorem C16_repr_strict : forall v s,
+  repr false v = Ok s -> repr true v = if has_undef v then Err EUndefined else Ok s.
+Proof. exact repr_strict_of_lenient. Qed.
+Print Assumptions C16_repr_strict.
+
+(* ... so nothing that {{ }} prints (and nothing RowParser's str() prints) holds an Undefined object,
+   for EVERY value ... *)
+Theorem C16_printed_holds_no_undefined : forall v s, to_str true Strict v = Ok s -> has_undef v = false.
+Proof. exact to_str_strict_no_leak. Qed.
+Print Assumptions C16_printed_holds_no_undefined.
+
+(* ... and no {@ @} result is or holds one, for every expression, context and policy *)
+Theorem C16_native_result_holds_no_undefined : forall p e c v,
+  eval_native true p e c = Ok v -> has_undef v = false.
+Proof. exact native_no_leak. Qed.
+Print Assumptions C16_native_result_holds_no_undefined.
+
+(* 1f. row level, for the code of this run: when parse_as_string looks through native results
+   (probed constant), the list a begin_for row iterates over - whatever cell produced it - has no
+   element that is or holds an Undefined object: no loop variable is ever bound to one *)
+Theorem C16_loop_entries_hold_no_undefined : native_result_checked = true ->
+  forall pe pn octx r log log' inc es,
+  inst_row pe pn octx r log = (log', Ok (inc, MEntries es)) -> Forall (fun v => has_undef v = false) es.
+Proof. exact loop_entries_no_undefined. Qed.
+Print Assumptions C16_loop_entries_hold_no_undefined.
+
 (* 2. defined references are replaced by exactly their value, in place, under either policy *)
-Theorem C16_defined_exact : forall p c x v s pre post rest,
-  lookup c x = Some v -> reserved_var x = false -> to_str p v = Ok s ->
-  render p pre c = Ok rest ->
-  render p (pre ++ NOut (EVar x) :: post) c
-  = match render p post c with Err e => Err e | Ok t => Ok (rest ++ s ++ t) end.
+Theorem C16_defined_exact : forall rf p c x v s pre post rest,
+  lookup c x = Some v -> reserved_var x = false -> to_str rf p v = Ok s ->
+  render rf p pre c = Ok rest ->
+  render rf p (pre ++ NOut (EVar x) :: post) c
+  = match render rf p post c with Err e => Err e | Ok t => Ok (rest ++ s ++ t) end.
 Proof. exact defined_exact_in_place. Qed.
 Print Assumptions C16_defined_exact.
 
-Theorem C16_defined_escape_exact : forall p c x s,
+Theorem C16_defined_escape_exact : forall rf p c x s,
   lookup c x = Some (VStr s) -> reserved_var x = false ->
-  render p [NOutEsc (EVar x)] c = Ok (escape s ++ []).
+  render rf p [NOutEsc (EVar x)] c = Ok (escape s ++ []).
 Proof. exact defined_escape_exact. Qed.
 Print Assumptions C16_defined_escape_exact.
 
@@ -88,18 +128,36 @@ Proof. exact skipped_policy_independent. Qed.
 Print Assumptions C16_skipped_policy_independent.
 
 (* 5. under the lenient policy the reference is silently replaced by nothing *)
-Theorem C16_lenient_blank_refuted : forall x, reserved_var x = false ->
-  render Lenient [NOut (EVar x)] [] = Ok [].
+Theorem C16_lenient_blank_refuted : forall rf x, reserved_var x = false ->
+  render rf Lenient [NOut (EVar x)] [] = Ok [].
 Proof. exact lenient_blank. Qed.
 Print Assumptions C16_lenient_blank_refuted.
 
-(* 6. residual: even Strict does not force an Undefined object stored in a list literal
-   (known finding "undefined-inside-list-literal") *)
-Theorem C16_strict_list_literal_refuted : forall x, reserved_var x = false ->
-  render Strict [NOut (EList [EVar x])] [] = Ok [91; 85; 110; 100; 101; 102; 105; 110; 101; 100; 93]%N
-  /\ eval_native Strict (EList [EVar x]) [] = Ok (VList [VUndef]).
-Proof. exact strict_list_literal. Qed.
-Print Assumptions C16_strict_list_literal_refuted.
+(* 6. STRICT EVERYWHERE, decided for the code of this run by the probed constants env_repr_fails
+   (repr() of the text environment's Undefined objects fails) and native_result_checked
+   (parse_as_string looks through a {@ @} result).  With both - the repaired tree - for every
+   template of the mini-language and every context:
+   (1) every forcing position of a name the context does not define is an error, INCLUDING printing a
+       list / tuple / dict literal that holds it at any depth (lforced true: rules N_out_holds + carries);
+   (2) a native template that forces it, or whose result is or holds it, is an error;
+   (3) whatever {{ }} prints holds no Undefined object; (4) whatever {@ @} hands back holds none.
+   Without one of them - jinja2.StrictUndefined alone - the witness of the finding
+   undefined-inside-list-literal: {{ [x] }} renders "[Undefined]" / {@ [x] @} is [Undefined]. *)
+Theorem C16_strict_everywhere :
+  if env_repr_fails && native_result_checked
+  then (forall t c x, lforced true c t x -> lookup c x = None -> reserved_var x = false ->
+                      hard_err (render env_repr_fails Strict t c))
+       /\ (forall e c x, eforced c e x \/ carries c e x -> lookup c x = None -> reserved_var x = false ->
+                         hard_err (eval_native native_result_checked Strict e c))
+       /\ (forall v s, to_str env_repr_fails Strict v = Ok s -> has_undef v = false)
+       /\ (forall p e c v, eval_native native_result_checked p e c = Ok v -> has_undef v = false)
+  else forall x, reserved_var x = false ->
+       (env_repr_fails = false
+        /\ render env_repr_fails Strict [NOut (EList [EVar x])] [] = Ok [91; 85; 110; 100; 101; 102; 105; 110; 101; 100; 93]%N)
+       \/ (native_result_checked = false
+           /\ eval_native native_result_checked Strict (EList [EVar x]) [] = Ok (VList [VUndef])).
+Proof. exact strict_everywhere_decided. Qed.
+Print Assumptions C16_strict_everywhere.
 
 (* 4. what the code configures TODAY (regenerated Tables.v: class of `undefined` and the
    behavioural probes).  Kept last: it does not compile while an environment is lenient, and
